@@ -31,7 +31,7 @@ VARIABLES w, pc, queue, cur, consumed, bstart, nchg, sched
 vars == <<w, pc, queue, cur, consumed, bstart, nchg, sched>>
 view == <<w, pc, queue, cur, consumed, bstart, nchg>>
 
-NoPic == [embedded |-> -1, file |-> -1, hasMime |-> FALSE, mime |-> <<>>, limit |-> 1, embedded_ack |-> 0, file_ack |-> 0]
+NoPic == [embedded |-> -1, file |-> -1, hasMime |-> FALSE, mime |-> <<>>, limit |-> 1, embedded_ack |-> 0, file_ack |-> 0, vary |-> FALSE]
 
 Init == /\ w = [InitW(FALSE, <<>>, <<>>, FALSE, "ok", NoPic) EXCEPT !.phase = "up", !.handles = Cardinality(Callers)]
         /\ pc = "Start" /\ queue = <<>> /\ cur = 0 /\ consumed = 0 /\ bstart = 0 /\ nchg = 0 /\ sched = <<>>
@@ -279,9 +279,10 @@ AllResolveEventually == [](w.fault \in {"eof", "rerr"} => <>(Unresolved = {}))
 \* ---------------------------------------------------------------- constants for the configurations
 OKC == [fail |-> FALSE, pad |-> 0]
 FAILC == [fail |-> TRUE, pad |-> 0]
+FAILP == [fail |-> TRUE, pad |-> 1]          \* fails after printing one line
 Shapes1 == {<<OKC>>}
-Shapes2 == {<<OKC>>, <<FAILC>>, <<OKC, FAILC>>}
-Shapes3 == {<<OKC>>, <<FAILC>>, <<OKC, FAILC>>, <<OKC, OKC>>, <<FAILC, OKC>>}
+Shapes2 == {<<OKC>>, <<FAILP>>, <<OKC, FAILC>>}
+Shapes3 == {<<OKC>>, <<FAILC>>, <<OKC, FAILP>>, <<OKC, OKC>>, <<FAILP, OKC>>}
 PL == <<112>>
 MX == <<109>>
 Subs1 == {<<PL>>}
